@@ -289,20 +289,30 @@ func (r *reader) i64(kind string) (int64, *ParseError) {
 	return v, nil
 }
 
+// UnsignedStringLengths switches the reader to the NBT specification's reading of string and name lengths
+// (unsigned 16 bits, 0..65535). The default is the signed reading the given properties use (lengths above
+// 32767 are "negative"); only the checks that judge encoder output for strings longer than 32767 bytes turn
+// this on, around single calls.
+var UnsignedStringLengths bool
+
 func (r *reader) str(kind string) (string, *ParseError) {
 	off := r.p
-	l, e := r.i16(kind + "len")
+	l16, e := r.i16(kind + "len")
 	if e != nil {
 		return "", e
 	}
+	l := int(l16)
 	if l < 0 {
-		return "", &ParseError{NegLen, off, kind + "len"}
+		if !UnsignedStringLengths {
+			return "", &ParseError{NegLen, off, kind + "len"}
+		}
+		l += 65536
 	}
-	if e := r.need(int(l), kind); e != nil {
+	if e := r.need(l, kind); e != nil {
 		return "", e
 	}
-	s := string(r.b[r.p : r.p+int(l)])
-	r.p += int(l)
+	s := string(r.b[r.p : r.p+l])
+	r.p += l
 	return s, nil
 }
 
